@@ -723,7 +723,7 @@ source-feasible iff it extends, on the compiler's auxiliaries only, to a feasibl
 
 `_partial`: the excluded region is (i) models with an and/or node that collapses to a non-0/1 value on the
 domains (`c01_logic_counterexample`: C10's known finding, flag `nary-singleton-nonbinary`), (ii) sides undefined at an assignment satisfying the domains
-(`c01_defined_pruned_counterexample`: finite literals, an undefined operand pruned by `linearize_extreme`).  `DomRel`/`BoxEnforced` as in `c01_partial`; they are discharged for the whole
+(`c01_defined_counterexample`; the variant with finite literals, an undefined operand pruned by `linearize_extreme`, is repaired: `c01_pruned_operand_regression`).  `DomRel`/`BoxEnforced` as in `c01_partial`; they are discharged for the whole
 pipeline in `c01_compile_logic_partial`. -/
 theorem c01_logic_partial {m : Model (Ext K)} {b : BoundsMap (Ext K)} {d : List (DomVar (Ext K))}
     {lm : LinModel (Ext K)} (h : linearizeWith m b d = .ok lm)
@@ -835,20 +835,15 @@ theorem c01_tolerance_counterexample {t : K} (ht : 1 ≤ t) (maxSteps : Nat) :
   obtain ⟨lm, ρ, h1, h2, h3⟩ := tolerance_ge_one_breaks (K := K) ht maxSteps
   exact ⟨exI, lm, ρ, h1, exI_hyps.1, exI_hyps.2.1, exI_hyps.2.2, h2, h3⟩
 
-/-- **the definedness clause cannot be dropped, even with finite literals** (FINDING on the real code: pruning in
-`linearize_extreme`): `min y s.t. c: y ≥ max{10, 0 * (x / 0)}`.  The operand `0 * (x / 0)` has no value at any
-assignment, its box is `[0, 0]`, so it is dominated by `10` and PRUNED WITHOUT BEING LOWERED — the division by
-zero is never reported, the row is `y ≥ 10`.  The linear model is feasible, the source model is not; every clause
-of the contract except `DefOn` on the right side holds, and so do `DomRel` and `BoxEnforced`. -/
-theorem c01_defined_pruned_counterexample :
-    ∃ (m : Model (Ext K)) (b : BoundsMap (Ext K)) (d : List (DomVar (Ext K))) (lm : LinModel (Ext K))
-      (ρ : String → K),
-      linearizeWith m b d = .ok lm ∧ DomRel m d ∧ BoxEnforced b d ∧
-      (∀ c ∈ m.constraints, (∀ y, (y ∈ varsOf c.lhs ∨ y ∈ varsOf c.rhs) → inScope d y) ∧ FinE c.lhs ∧ FinE c.rhs ∧
-        NCon d c.lhs ∧ NCon d c.rhs ∧ DefOn d c.lhs) ∧
-      GoodE d m.objective ∧
-      linFeasible lm ρ = true ∧ ∀ ρ' : String → K, ¬ srcFeasible m ρ' = true :=
-  defined_needed_pruned
+/-- **regression for the repaired finding on pruning** (rooc 46b0121, found by this development):
+`min y s.t. c: y ≥ max{10, 0 * (x / 0)}`.  The operand `0 * (x / 0)` has no value at any assignment, its box is
+`[0, 0]`, so it is dominated by `10`; `linearize_extreme` used to PRUNE IT WITHOUT LOWERING IT — the division by
+zero was never reported, the row was `y ≥ 10`, the linear model feasible and the source model not.  The
+retention test is now `¬dominated ∨ may_be_undefined` (`retainedFlagsE`); the operand is lowered and the
+compilation is rejected. -/
+theorem c01_pruned_operand_regression :
+    linearizeWith (exPr : Model (Ext K)) [] (exPr : Model (Ext K)).domain = .error .divisionByZero :=
+  exPr_error
 
 /-- **`AssertShape` is discharged for every model that comes over the wire** (`Model.dec`, the decoder the
 checker uses): a bare assertion is always stored as `lhs = 1`. -/
